@@ -1,7 +1,7 @@
 (* Request/response interface of the executable model: one S-expression in,
    one out.  Shared by the extracted runner and the in-Coq path. *)
 From InfluxQL Require Import Base.Prelude Base.Sexp Base.Oracles Lex.Token Lex.Reader Lex.Scanner Ast.Ast Ast.SexpAst
-  Val.Duration Parse.ExprTree Parse.Instr Parse.ParseExpr Parse.ParseStmts Ast.Printer Ast.PrinterStmts Parse.Params Ast.Privileges.
+  Val.Duration Parse.ExprTree Parse.Instr Parse.ParseExpr Parse.ParseStmts Ast.Printer Ast.PrinterStmts Parse.Params Ast.Privileges Ast.ColumnNames.
 
 Definition bad_request : sexp := L [A (-1)].
 
@@ -135,6 +135,11 @@ Definition dispatch1 (orc : oracles) (req : sexp) : sexp :=
       | 14%nat, [st] =>
           match sd_stmt st with
           | Some st' => L (map (fun p => L [se_bool (ep_admin p); se_text (ep_name p); se_priv (ep_priv p)]) (stmt_privs st'))
+          | None => bad_request
+          end
+      | 15%nat, [q] =>
+          match sd_select q with
+          | Some q' => se_res (se_list se_text) (column_names q')
           | None => bad_request
           end
       | 12%nat, [e] => match sd_expr e with Some e' => se_text (print_expr orc e') | None => bad_request end
